@@ -53,6 +53,14 @@ def serialize_tok{i}(value):
     return "ser{i}:" + str(getattr(value, "raw", value))
 
 
+class Ctor{i}(Tok):
+    """A type whose constructor is configured as the parse function (type == parse)."""
+
+    def __init__(self, raw):
+        CALLS.append(("parse", {i}, repr(raw)))
+        super().__init__(raw)
+
+
 def parse_str{i}(value):
     CALLS.append(("parse", {i}, repr(value)))
     return "P{i}:" + str(value)
@@ -63,7 +71,7 @@ def serialize_str{i}(value):
     return "S{i}:" + str(value)
 '''
 
-VARIANTS = ["both", "parse_str", "serialize_str", "native_datetime", "deprecated_import", "unconfigured", "both"]
+VARIANTS = ["both", "parse_str", "serialize_str", "native_datetime", "deprecated_import", "unconfigured", "both", "ctor_parse"]
 
 
 def scalar_config(i: int, variant: str) -> Dict[str, str]:
@@ -75,6 +83,8 @@ def scalar_config(i: int, variant: str) -> Dict[str, str]:
         return {"type": "str", "serialize": ".csm.serialize_str%d" % i}
     if variant == "native_datetime":
         return {"type": "datetime.datetime"}
+    if variant == "ctor_parse":
+        return {"type": ".csm.Ctor%d" % i, "parse": ".csm.Ctor%d" % i, "serialize": ".csm.serialize_tok%d" % i}
     if variant == "deprecated_import":
         return {"type": "Tok%d" % i, "parse": "parse_tok%d" % i, "serialize": "serialize_tok%d" % i, "import": ".csm"}
     raise KeyError(variant)
@@ -143,6 +153,10 @@ def worker(case: Dict[str, Any]) -> CaseResult:
             i = index_of.get(name)
             if v in ("both", "deprecated_import"):
                 return getattr(csm_mod, "Tok%d" % i)(token)
+            if v == "ctor_parse":
+                obj = getattr(csm_mod, "Tok%d" % i)(token)  # built without logging a parse call
+                obj.__class__ = getattr(csm_mod, "Ctor%d" % i)
+                return obj
             if v == "native_datetime":
                 return datetime.datetime.fromisoformat(token)
             return token
@@ -150,7 +164,7 @@ def worker(case: Dict[str, Any]) -> CaseResult:
         def in_wire(name: str, token: Any) -> Any:
             v = variant_of.get(name)
             i = index_of.get(name)
-            if v in ("both", "deprecated_import"):
+            if v in ("both", "deprecated_import", "ctor_parse"):
                 return "ser%d:%s" % (i, token)
             if v == "serialize_str":
                 return "S%d:%s" % (i, token)
@@ -161,6 +175,12 @@ def worker(case: Dict[str, Any]) -> CaseResult:
             i = index_of.get(name)
             if v in ("both", "deprecated_import"):
                 return lambda raw: getattr(csm_mod, "Tok%d" % i)(raw)
+            if v == "ctor_parse":
+                def mk(raw, i=i):
+                    obj = getattr(csm_mod, "Tok%d" % i)(raw)
+                    obj.__class__ = getattr(csm_mod, "Ctor%d" % i)
+                    return obj
+                return mk
             if v == "parse_str":
                 return lambda raw: "P%d:%s" % (i, raw)
             if v == "native_datetime":
@@ -171,6 +191,8 @@ def worker(case: Dict[str, Any]) -> CaseResult:
             v = variant_of.get(name)
             if v == "native_datetime":
                 return lambda n: (datetime.datetime(2020, 1, 1) + datetime.timedelta(seconds=n)).isoformat()
+            if v in ("serialize_str", "parse_str", "unconfigured"):
+                return lambda n: "" if n % 6 == 0 else "%s#%d" % (name, n)  # a non-null but falsy value is still a value
             return lambda n: "%s#%d" % (name, n)
 
         tokens = {n: token_gen(n) for n in scalars}
@@ -195,7 +217,7 @@ def worker(case: Dict[str, Any]) -> CaseResult:
                 if isinstance(t, GraphQLInputObjectType):
                     return {k: go(t.fields[k].type, v) for k, v in x.items()}
                 if isinstance(t, GraphQLScalarType) and t.name in variant_of:
-                    if variant_of[t.name] in ("both", "deprecated_import", "serialize_str"):
+                    if variant_of[t.name] in ("both", "deprecated_import", "serialize_str", "ctor_parse"):
                         occ.append((index_of[t.name], x))
                     return in_wire(t.name, x)
                 return x
@@ -231,7 +253,7 @@ def worker(case: Dict[str, Any]) -> CaseResult:
                     vname = vd.variable.name.value
                     t = type_from_ast(schema_ref, vd.type)
                     named = get_named_type(t)
-                    is_cfg_scalar = isinstance(named, GraphQLScalarType) and variant_of.get(named.name) in ("both", "deprecated_import", "serialize_str")
+                    is_cfg_scalar = isinstance(named, GraphQLScalarType) and variant_of.get(named.name) in ("both", "deprecated_import", "serialize_str", "ctor_parse")
                     v = tree[vname]
                     if is_cfg_scalar and str(t).startswith("["):
                         top_level_scalar_dirty = "scalar-variable-list-passed-whole-to-serialize"
@@ -298,7 +320,7 @@ def worker(case: Dict[str, Any]) -> CaseResult:
                         continue
                     t = oracles.type_at(world.types, path)
                     named = get_named_type(t) if t is not None else None
-                    if isinstance(named, GraphQLScalarType) and variant_of.get(named.name) in ("both", "deprecated_import", "parse_str"):
+                    if isinstance(named, GraphQLScalarType) and variant_of.get(named.name) in ("both", "deprecated_import", "parse_str", "ctor_parse"):
                         parse_want.append((index_of[named.name], repr(raw)))
                         where[repr(raw)] = path
                 parse_calls = sorted((i, a) for k, i, a in calls if k == "parse")
